@@ -59,13 +59,14 @@ DEFAULTS = dict(burnin=1, concentration_update=True, concentration_value=1.0, ma
                 resample_threshold=0.5, thin=1, subtree_update_prob=0.0)
 
 
-def run_one(n, dims, seed, opts, grid=5, want_events=True, offset=0.0):
+def run_one(n, dims, seed, opts, grid=5, want_events=True, offset=0.0, data=None):
     """Run one chain; returns dict(error, problems[list of (kind,msg)], spec_trace, n_entries, results)."""
     from phyclone.tree import Tree, FSCRPDistribution, TreeJointDistribution
 
     o = dict(DEFAULTS)
     o.update(opts)
-    data = make_data(n, dims, grid, seed, o["outlier_prob"], offset=offset)
+    if data is None:
+        data = make_data(n, dims, grid, seed, o["outlier_prob"], offset=offset)
     rec = recorder.ChainRecorder() if want_events else None
     res, err = recorder.run_chain(data, seed, rec=rec, **o)
     out = {"error": err, "problems": [], "spec_trace": None, "n_entries": 0, "opts": o, "n": n, "dims": dims, "seed": seed}
